@@ -55,6 +55,9 @@ type Scenario struct {
 	// Leaderless: records go to partitions by id parity; the "leaderless" fault makes partition 1 of t report LEADER_NOT_AVAILABLE in
 	// metadata while brokers reject produce requests for it without naming a leader
 	Leaderless bool `json:"leaderless,omitempty"`
+	// FirstBatch: both partitions of t live on one broker; after that broker has answered a produce request, the first batch ever
+	// sent for the other partition is answered with a retriable error (nothing appended) while a second batch is right behind it
+	FirstBatch bool `json:"firstBatch,omitempty"`
 	Steps      []Step `json:"steps"`
 }
 
@@ -76,6 +79,14 @@ func gen(seed int64, tier string) Scenario {
 			sc.Steps = append(sc.Steps, Step{Op: "purge", Topic: "t"})
 		}
 		sc.Steps = append(sc.Steps, Step{Op: "sleep", Ms: 200})
+		return sc
+	}
+	if r.Intn(8) == 0 {
+		sc.FirstBatch = true
+		sc.MaxRecs, sc.LingerMs = 8, 0
+		sc.Steps = append(sc.Steps, Step{Op: "produce", ID: 2, Mode: "produce", Topic: "t"}, Step{Op: "flush"}, Step{Op: "sleep", Ms: 50}, Step{Op: "fault", Fault: "rejectfirst"},
+			Step{Op: "produce", ID: 1, Mode: "produce", Topic: "t"}, Step{Op: "sleep", Ms: 1}, Step{Op: "produce", ID: 3, Mode: "produce", Topic: "t"},
+			Step{Op: "sleep", Ms: 1 + r.Intn(3)}, Step{Op: "produce", ID: 5, Mode: "produce", Topic: "t"}, Step{Op: "sleep", Ms: 300}, Step{Op: "flush"})
 		return sc
 	}
 	if r.Intn(8) == 0 {
@@ -228,7 +239,11 @@ func runScenario(t *testing.T, rec *sim.Recorder, sc Scenario) {
 		if sc.Manual {
 			opts = append(opts, kgo.ManualFlushing())
 		}
-		if sc.SlowPartMs > 0 || sc.BadParts || sc.Leaderless {
+		if sc.FirstBatch {
+			c.MoveTopicPartition("t", 1, c.LeaderFor("t", 0))
+			chaos.Latency = 5 * time.Millisecond
+		}
+		if sc.SlowPartMs > 0 || sc.BadParts || sc.Leaderless || sc.FirstBatch {
 			d := time.Duration(sc.SlowPartMs) * time.Millisecond
 			opts = append(opts, kgo.RecordPartitioner(kgo.BasicConsistentPartitioner(func(string) func(*kgo.Record, int) int {
 				return func(r *kgo.Record, n int) int {
@@ -442,6 +457,33 @@ func runScenario(t *testing.T, rec *sim.Recorder, sc Scenario) {
 					chaos.StallNext(int16(kmsg.Produce), n, time.Duration(st.Ms)*time.Millisecond)
 				case "leaderless":
 					leaderless.Store(true)
+				case "rejectfirst":
+					c.ControlKey(int16(kmsg.Produce), func(kreq kmsg.Request) (kmsg.Response, error, bool) {
+						req := kreq.(*kmsg.ProduceRequest)
+						hasP1 := false
+						for _, rt := range req.Topics {
+							for _, rp := range rt.Partitions {
+								hasP1 = hasP1 || rp.Partition == 1
+							}
+						}
+						if !hasP1 {
+							c.KeepControl()
+							return nil, nil, false
+						}
+						c.DropControl()
+						resp := req.ResponseKind().(*kmsg.ProduceResponse)
+						for _, rt := range req.Topics {
+							st := kmsg.NewProduceResponseTopic()
+							st.Topic, st.TopicID = rt.Topic, rt.TopicID
+							for _, rp := range rt.Partitions {
+								sp := kmsg.NewProduceResponseTopicPartition()
+								sp.Partition, sp.ErrorCode, sp.BaseOffset = rp.Partition, kerr.NotEnoughReplicas.Code, -1
+								st.Partitions = append(st.Partitions, sp)
+							}
+							resp.Topics = append(resp.Topics, st)
+						}
+						return resp, nil, true
+					})
 				case "stalldropmove":
 					// the next produce request is handled, its answer held back and then lost; meanwhile the partitions move
 					// to the other broker and the client learns about it
